@@ -1,3 +1,4 @@
+from fractions import Fraction
 from rtamt.syntax.ast.visitor.stl.ast_visitor import StlAstVisitor
 from rtamt.semantics.interval.interval import Interval
 from rtamt.pastifier.ltl.pastifier import LtlPastifier
@@ -46,6 +47,8 @@ class StlPastifier(LtlPastifier, StlAstVisitor):
 
     def pastify(self, ast):
         self.ast = ast
+        for spec in ast.specs:
+            self.to_default_unit(spec)
         h = StlHorizon()
         horizons = dict()
         for spec in ast.specs:
@@ -60,6 +63,27 @@ class StlPastifier(LtlPastifier, StlAstVisitor):
         ast.specs = pastified_specs
         ast.phi_name_to_node_dict = self.ast.phi_name_to_node_dict
         return ast
+
+    def to_default_unit(self, node):
+        # The horizons add bounds of different operators and the delays created
+        # below carry no unit: express every bound in the default unit first.
+        for child in node.children:
+            self.to_default_unit(child)
+        if isinstance(node, Interval):
+            b_unit = node.begin_unit
+            e_unit = node.end_unit
+            if len(b_unit) == 0:
+                if len(e_unit) > 0:
+                    b_unit = e_unit
+                else:
+                    b_unit = self.ast.unit
+                    e_unit = self.ast.unit
+            elif len(e_unit) == 0:
+                e_unit = b_unit
+            node.begin = node.begin * Fraction(self.ast.U[b_unit], self.ast.U[self.ast.unit])
+            node.end = node.end * Fraction(self.ast.U[e_unit], self.ast.U[self.ast.unit])
+            node.begin_unit = ''
+            node.end_unit = ''
 
     def visit(self, node, *args, **kwargs):
         out = StlAstVisitor.visit(self, node, *args, **kwargs)
